@@ -317,8 +317,10 @@ func (s *wscenario) closeBegin() {
 // probeClosed issues empty WriteMessages calls until one is refused with io.ErrClosedPipe: from then on the
 // writer is known to be marked closed (enter() reads the flag under the mutex Close's critical section holds).
 func (s *wscenario) probeClosed() bool {
-	deadline := time.Now().Add(watchdog())
-	for time.Now().Before(deadline) {
+	// at most 14 probes, 50 µs apart at first, then doubling (≈ 0.4 s in all): the mark is set within microseconds of
+	// Close's start; a writer that still accepts calls after that is not going to refuse them later
+	pause := 50 * time.Microsecond
+	for i := 0; i < 14; i++ {
 		c := s.begin(nil, false, false)
 		s.waitDone(c)
 		s.rec.mu.Lock()
@@ -333,7 +335,8 @@ func (s *wscenario) probeClosed() bool {
 		if strings.HasSuffix(last, "/closed") {
 			return true
 		}
-		time.Sleep(50 * time.Microsecond)
+		time.Sleep(pause)
+		pause *= 2
 	}
 	return false
 }
